@@ -391,10 +391,12 @@ fn apply_edit(f: &mut FactSet, edit: &str, rng: &mut Rng) -> bool {
 /// replacements must resolve in both ontologies (the library compares resolved replacements)
 fn sanitize_replacements(old: &mut FactSet, new: &mut FactSet) {
     let common: BTreeSet<u32> = old.term_ids().intersection(&new.term_ids()).copied().collect();
+    let either: BTreeSet<u32> = old.term_ids().union(&new.term_ids()).copied().collect();
     for f in [old, new] {
         for t in &mut f.terms {
             if let Some(r) = t.replaced_by {
-                if !common.contains(&r) {
+                // a replacement must resolve in both ontologies or in neither (dangling on both sides)
+                if !common.contains(&r) && either.contains(&r) {
                     t.replaced_by = None;
                 }
             }
@@ -475,7 +477,6 @@ impl Monitor for C18 {
             n_max: if rng.chance(1, 8) { tier.pick(50, 100) } else { 20 },
             defaults: true,
             flags: true,
-            dangling_replacement: false,
             max_recs: 5,
             ..GenCfg::default()
         };
